@@ -67,28 +67,61 @@ Definition is_ue14 (ty : caltype) := VNACAL_IS_UE14 ty.
 Definition is_16 (ty : caltype) := orb (caltype_eqb ty T16) (caltype_eqb ty U16).
 
 (* ---------------------------------------------------------------- union-find as coded *)
+(* find(), first loop:   while (set[leader] != leader) leader = set[leader];
+   The fuel is the number of ports: a parent has a smaller index than its child (ConnProofs.wfset), so
+   the loop ends by its own condition before the fuel is used up (ConnProofs.find_fuel_adequate). *)
 Fixpoint find_leader (fuel : nat) (set : list nat) (i : nat) : nat :=
   match fuel with
   | O => i
   | S f => let j := nth i set i in if Nat.eqb j i then i else find_leader f set j
   end.
 
-(* the collapsing step of find() only shortens chains; leaders are unchanged, so it is omitted *)
+(* find(), second loop:  for (i = index; set[i] != leader; i = set[i]) set[i] = leader;
+   as coded: the step  i = set[i]  reads the cell that the body has just redirected to the leader, so
+   the loop stops after having redirected set[index] alone (ConnProofs.collapse_as_coded) *)
+Fixpoint collapse (fuel : nat) (set : list nat) (leader i : nat) : list nat :=
+  match fuel with
+  | O => set
+  | S f => if Nat.eqb (nth i set i) leader then set
+           else let set' := upd set i leader in collapse f set' leader (nth i set' i)
+  end.
+
+(* find(set, index): the leader and the array as find leaves it *)
+Definition find_set (n : nat) (set : list nat) (index : nat) : nat * list nat :=
+  let leader := find_leader n set index in (leader, collapse n set leader index).
+
+(* i = find(set, s_row); j = find(set, s_column); if (i < j) set[j] = i; else if (i > j) set[i] = j; *)
 Definition union (n : nat) (set : list nat) (a b : nat) : list nat :=
-  let i := find_leader n set a in
-  let j := find_leader n set b in
-  if Nat.ltb i j then upd set j i else if Nat.ltb j i then upd set i j else set.
+  let '(i, s1) := find_set n set a in
+  let '(j, s2) := find_set n s1 b in
+  if Nat.ltb i j then upd s2 j i else if Nat.ltb j i then upd s2 i j else s2.
+
+Definition all_cells (n : nat) : list (nat * nat) :=
+  flat_map (fun r => map (fun c => (r, c)) (seq 0 n)) (seq 0 n).
+
+(* first pass of build_connectivity_matrix: set[i] = i, then the scan of the S cells by rows *)
+Definition scan_set (n : nat) (s : list scell) : list nat :=
+  fold_left (fun set rc =>
+    let '(r, c) := rc in
+    if Nat.eqb r c then set
+    else if scell_is_zero (nth (r * n + c) s SNull) then set
+    else union n set r c) (all_cells n) (seq 0 n).
+
+(* second pass:  if (i == j || find(set, i) == find(set, j)) matrix[cell] = true;  the two find calls
+   (which go on redirecting cells of set[]) are made only when i != j; they are modelled left to right
+   (C leaves the order open; ConnProofs.find_set_spec shows that neither changes any leader) *)
+Fixpoint conn_scan (n : nat) (set : list nat) (cells : list (nat * nat)) : list bool :=
+  match cells with
+  | [] => []
+  | (i, j) :: r =>
+      if Nat.eqb i j then true :: conn_scan n set r
+      else let '(li, s1) := find_set n set i in
+           let '(lj, s2) := find_set n s1 j in
+           Nat.eqb li lj :: conn_scan n s2 r
+  end.
 
 Definition build_connectivity (n : nat) (s : list scell) : list bool :=
-  let cells := flat_map (fun r => map (fun c => (r, c)) (seq 0 n)) (seq 0 n) in
-  let set :=
-    fold_left (fun set rc =>
-      let '(r, c) := rc in
-      if Nat.eqb r c then set
-      else if scell_is_zero (nth (r * n + c) s SNull) then set
-      else union n set r c) cells (seq 0 n) in
-  map (fun rc => let '(i, j) := rc in
-         orb (Nat.eqb i j) (Nat.eqb (find_leader n set i) (find_leader n set j))) cells.
+  conn_scan n (scan_set n s) (all_cells n).
 
 (* ---------------------------------------------------------------- the add *)
 Definition zle (a b : Z) := Z.leb a b.
